@@ -391,10 +391,17 @@ func snapshotPath(c *Config, tName string, isStandalone bool) (string, string) {
 		dir = filepath.Join(filepath.Dir(callerFilename), c.snapsDir)
 	}
 
+	callerDir := filepath.Dir(callerFilename)
+	if isStandalone {
+		// standalone paths are format strings (%d is the occurrence), escape any other %
+		dir = escapePercent(dir)
+		callerDir = escapePercent(callerDir)
+	}
+
 	snapPath := filepath.Join(dir, constructFilename(c, callerFilename, tName, isStandalone))
 	snapPathRel := snapPath
 	if !isTrimBathBuild {
-		snapPathRel, _ = filepath.Rel(filepath.Dir(callerFilename), snapPath)
+		snapPathRel, _ = filepath.Rel(callerDir, snapPath)
 	}
 
 	return snapPath, snapPathRel
@@ -411,12 +418,19 @@ func constructFilename(c *Config, callerFilename, tName string, isStandalone boo
 		}
 	}
 
+	extension := c.extension
 	if isStandalone {
-		filename += "_%d"
+		filename = escapePercent(filename) + "_%d"
+		extension = escapePercent(extension)
 	}
-	filename += snapsExt + c.extension
+	filename += snapsExt + extension
 
 	return filename
+}
+
+// escapePercent escapes % so the result can be part of a format string.
+func escapePercent(s string) string {
+	return strings.ReplaceAll(s, "%", "%%")
 }
 
 func unescapeEndChars(s string) string {
